@@ -34,6 +34,8 @@ def configure(cfg):
     for m in ("always", "remote", "nonlocal", "never"):
         if m not in _RES:
             _RES[m] = XMLResource('<a/>', defuse=m)
+    if cfg.get("roles"):
+        _role_schema()              # built outside the tracer
 
 
 # ---------------------------------------------------------------- is_defused
@@ -267,6 +269,170 @@ def h_payload(p: int, k: int) -> bool:
     return True
 
 
+ROLES = ["resource.parse", "document", "document.parse", "subclass.parse", "schema.iter_errors", "schema.decode"]
+_ROLE_SCHEMA = {}
+
+
+class _SubResource(XMLResource):
+    """a user subclass without options of its own"""
+
+
+def pre_role(fn, p, r):
+    return 0 <= p < len(PAYLOADS) and 0 <= r < len(ROLES)
+
+
+def _role_schema():
+    if "s" not in _ROLE_SCHEMA:
+        import xmlschema
+        xsd = ('<xs:schema xmlns:xs="http://www.w3.org/2001/XMLSchema"><xs:element name="a"><xs:complexType mixed="true"><xs:sequence>'
+               '<xs:element name="b" minOccurs="0"/></xs:sequence><xs:attribute name="x"/></xs:complexType></xs:element></xs:schema>')
+        _ROLE_SCHEMA["s"] = xmlschema.XMLSchema10(xsd, defuse='always')
+    return _ROLE_SCHEMA["s"]
+
+
+def h_role(p: int, r: int) -> bool:
+    """the 'always' setting given once governs every later parse made on behalf of the same object"""
+    import xmlschema
+    text, forbidden = PAYLOADS[pick(p, len(PAYLOADS))]
+    role = ROLES[pick(r, len(ROLES))]
+    schema = _role_schema()
+    root = None
+    try:
+        if role == "resource.parse":
+            res = XMLResource('<a/>', defuse='always')
+            res.parse(text)
+            root = res.root
+        elif role == "subclass.parse":
+            res = _SubResource('<a/>', defuse='always')
+            res.parse(text)
+            root = res.root
+        elif role == "document":
+            root = xmlschema.XmlDocument(text, schema=schema, validation='skip', defuse='always').root
+        elif role == "document.parse":
+            doc = xmlschema.XmlDocument('<a/>', schema=schema, validation='skip', defuse='always')
+            doc.parse(text)
+            root = doc.root
+        elif role == "schema.iter_errors":
+            list(schema.iter_errors(text))
+            root = None
+        else:
+            schema.decode(text, validation='lax')
+            root = None
+        raised = False
+    except XMLResourceForbidden:
+        raised = True
+    except XMLSchemaException:
+        return False                 # e.g. a parse error from an entity that was looked at instead of refused
+    if raised != forbidden:
+        return False
+    if root is not None:
+        plain = XMLResource(text, defuse='never')
+        if [(e.tag, e.text) for e in root.iter()] != [(e.tag, e.text) for e in plain.root.iter()]:
+            return False
+    return True
+
+
+# ---------------------------------------------------------------- schema documents and schema variants (finite choice)
+XS = 'xmlns:xs="http://www.w3.org/2001/XMLSchema"'
+PROLOGS = [
+    ('', False),
+    ('<!DOCTYPE xs:schema>', False),
+    ('<!DOCTYPE xs:schema [<!ELEMENT zz ANY>]>', False),
+    ('<!DOCTYPE xs:schema [<!ENTITY n "v">]>', True),
+    ('<!DOCTYPE xs:schema [<!ENTITY n SYSTEM "file:///etc/hostname">]>', True),
+    ('<!DOCTYPE xs:schema [<!ENTITY % p "x">]>', True),
+    ('<!DOCTYPE xs:schema [<!NOTATION nn SYSTEM "n"><!ENTITY u SYSTEM "u" NDATA nn>]>', True),
+    ('<!DOCTYPE xs:schema SYSTEM "http://example.invalid/x.dtd">', True),
+]
+SROLES = ["main-text", "main-file", "included", "imported", "include_schema()", "instance"]
+SVARIANTS = ["plain", "parent"]
+_SDIR = {}
+
+
+def _sdir():
+    if "d" not in _SDIR:
+        import atexit
+        import os
+        import shutil
+        import tempfile
+        d = os.path.realpath(tempfile.mkdtemp(prefix="c13roles"))
+        atexit.register(shutil.rmtree, d, True)
+        _SDIR["d"] = d
+    return _SDIR["d"]
+
+
+def pre_srole(fn, p, r, v):
+    return 0 <= p < len(PROLOGS) and 0 <= r < len(SROLES) and 0 <= v < len(SVARIANTS)
+
+
+def h_schema_role(p: int, r: int, v: int) -> bool:
+    """a schema set created with defuse='always' (directly or derived from a parent schema) refuses a DTD with entity
+    declarations in its main document, in included / imported documents and in the instances it validates; harmless
+    prologs change nothing"""
+    import os
+    import xmlschema
+    prolog, forbidden = PROLOGS[pick(p, len(PROLOGS))]
+    role = SROLES[pick(r, len(SROLES))]
+    variant = SVARIANTS[pick(v, len(SVARIANTS))]
+    d = None
+
+    def write(name, text):
+        path = os.path.join(d, name)
+        with open(path, 'w') as f:
+            f.write(text)
+        return path
+    from engine.sym import real_io
+    with real_io():
+        d = _sdir()
+        kwargs = {"defuse": "always"}
+        if variant == "parent":
+            kwargs["parent"] = xmlschema.XMLSchema10('<xs:schema %s targetNamespace="urn:base"><xs:simpleType name="code">'
+                                                     '<xs:restriction base="xs:string"/></xs:simpleType></xs:schema>' % XS)
+        unit = '%s<xs:schema %s%%s><xs:element name="%%s" type="xs:string"/></xs:schema>' % (prolog.replace('%', '%%'), XS)
+        safe = '<xs:schema %s><xs:element name="root" type="xs:string"/></xs:schema>' % XS
+        try:
+            if role == "main-text":
+                names = sorted(xmlschema.XMLSchema10(unit % ('', 'root'), **kwargs).elements)
+            elif role == "main-file":
+                names = sorted(xmlschema.XMLSchema10(write('main.xsd', unit % ('', 'root')), **kwargs).elements)
+            elif role == "included":
+                write('inc.xsd', unit % ('', 'inc'))
+                names = sorted(xmlschema.XMLSchema10(write('m_inc.xsd', '<xs:schema %s><xs:include schemaLocation="inc.xsd"/>'
+                                                           '<xs:element name="root" type="xs:string"/></xs:schema>' % XS), **kwargs).elements)
+                if forbidden and 'inc' in names:
+                    return False
+                names = ['root'] if 'root' in names and ('inc' in names) == (not forbidden) else []
+            elif role == "imported":
+                write('imp.xsd', unit % (' targetNamespace="urn:imp"', 'imp'))
+                sch = xmlschema.XMLSchema10(write('m_imp.xsd', '<xs:schema %s><xs:import namespace="urn:imp" schemaLocation="imp.xsd"/>'
+                                                  '<xs:element name="root" type="xs:string"/></xs:schema>' % XS), **kwargs)
+                loaded = '{urn:imp}imp' in sch.maps.elements
+                if forbidden and loaded:
+                    return False
+                names = ['root'] if 'root' in sch.elements and loaded == (not forbidden) else []
+                if forbidden:
+                    return names == ['root']          # a refused import is a failed location, not an error (Structures 4.2.6.2)
+            elif role == "include_schema()":
+                sch = xmlschema.XMLSchema10(write('safe.xsd', safe), **kwargs)
+                write('late.xsd', unit % ('', 'late'))
+                sch.include_schema('late.xsd', base_url=d)
+                names = ['root'] if 'root' in sch.elements else []
+            else:
+                sch = xmlschema.XMLSchema10(write('safe.xsd', safe), **kwargs)
+                inst = prolog.replace('xs:schema', 'root') + '<root>t</root>'
+                ok1 = sch.is_valid(inst)
+                ok2 = sch.is_valid(write('inst.xml', inst))
+                names = ['root'] if ok1 and ok2 and sch.to_dict(inst) == 't' else []
+            raised = False
+        except XMLResourceForbidden:
+            raised = True
+        except XMLSchemaException:
+            return False
+    if raised != forbidden:
+        return False
+    return raised or names == ['root']
+
+
 def h_handlers(p: int, k: int) -> bool:
     """the expat handlers installed by SafeExpatParser.reset() are the three forbidding methods, and each one raises"""
     parser = sax.SafeExpatParser()
@@ -289,6 +455,10 @@ def h_handlers(p: int, k: int) -> bool:
 
 
 def explain(fn, args):
+    if fn == "h_schema_role":
+        return "prolog %r in role %s of a schema set created with defuse='always' (%s)" % (PROLOGS[args["p"]][0], SROLES[args["r"]], SVARIANTS[args["v"]])
+    if fn == "h_role":
+        return "payload %r through %s of an object created with defuse='always'" % (PAYLOADS[args["p"]][0], ROLES[args["r"]])
     if fn == "h_payload":
         return "payload %r as %s" % (PAYLOADS[args["p"]][0], KINDS[args["k"]])
     return "%s args %r cfg %r" % (fn, args, {k: CFG[k] for k in ("mode", "prefix", "length", "nevents")})
@@ -334,6 +504,11 @@ def obligations(tier, seed):
                 "bound": "scripts of %d pulldom events, forbidden declaration / syntax error at any position or absent" % n})
     out.append({"name": "payloads", "fn": "h_payload", "pre": "pre_payload", "args": [["p", "int"], ["k", "int"]], "config": {},
                 "timeout": 300, "twin_timeout": 30, "bound": "%d payloads x %d source kinds (finite choice, real parser)" % (len(PAYLOADS), len(KINDS))})
+    out.append({"name": "roles", "fn": "h_role", "pre": "pre_role", "args": [["p", "int"], ["r", "int"]], "config": {"roles": True},
+                "timeout": 300, "twin_timeout": 30, "bound": "%d payloads x roles %r of objects created with defuse='always'" % (len(PAYLOADS), ROLES)})
+    out.append({"name": "schema-roles", "fn": "h_schema_role", "pre": "pre_srole", "args": [["p", "int"], ["r", "int"], ["v", "int"]], "config": {},
+                "timeout": 600, "twin_timeout": 60,
+                "bound": "%d DTD prologs x roles %r x schema variants %r (finite choice, real files, construction outside the tracer)" % (len(PROLOGS), SROLES, SVARIANTS)})
     out.append({"name": "handlers", "fn": "h_handlers", "pre": "pre_payload", "args": [["p", "int"], ["k", "int"]], "config": {},
                 "timeout": 200, "twin_timeout": 30, "bound": "live parser object: handler bindings and totality of the three forbidding handlers"})
     return out
